@@ -197,7 +197,7 @@ func oracleC10(x *Exec) []verdict {
 					ended := false
 					if dt != nil {
 						for k, e := range dt.ends {
-							if e < at && dt.endOK[k] {
+							if e < at && (dt.endOK[k] || cfg.Steps[di].CoF) {
 								ended = true
 							}
 						}
@@ -206,6 +206,11 @@ func oracleC10(x *Exec) []verdict {
 								ended = false
 							}
 						}
+					}
+					if (dt == nil || len(dt.starts) == 0) && licenses(cfg.step(dn), x.finalOf(dn)) {
+						// the dependency was re-processed without being executed (skipped again, by its own
+						// precondition or by an upstream skip) and its continueOn lets dependents proceed
+						ended = true
 					}
 					if !ended && !(cfg.Steps[di].Unmet && cfg.Steps[di].CoS) {
 						out = append(out, verdict{"C10/reexecution-out-of-dependency-order", fmt.Sprintf("%s started before its re-executed dependency %s had finished: %s", s.Name, dn, x.trace())})
